@@ -157,6 +157,10 @@ def run(ctx):
     conf = os.path.join(root, "canvas.conf")
     with open(conf, "w") as f:
         f.write('canvas-name "t"\ncanvas-dir "%s"\nstep "one" command { "true" }\n' % root)
+    # a second configuration, of another mode, whose parsing itself interpolates (per-test env)
+    rconf = os.path.join(root, "regress.conf")
+    with open(rconf, "w") as f:
+        f.write('robsddir "%s"\nregress-user "root"\nregress "bin/ls" env { "FOO=${rdomain}" }\nregress "bin/cat" quiet\n' % root)
     ncli = ctx.n(150, 3000)
     cli_lines = []
     cli_obs = []
@@ -169,7 +173,10 @@ def run(ctx):
         args = []
         for k, v in env:
             args += ["-v", (k + b"=" + v).decode()]
-        rc, out, err = core.run_cmd([os.path.join(d, "robsd-config"), "-m", "canvas", "-C", conf] + args + ["-"], stdin=content)
+        if i % 3 == 2:
+            rc, out, err = core.run_cmd([os.path.join(d, "robsd-config"), "-m", "robsd-regress", "-C", rconf] + args + ["-"], stdin=content)
+        else:
+            rc, out, err = core.run_cmd([os.path.join(d, "robsd-config"), "-m", "canvas", "-C", conf] + args + ["-"], stdin=content)
         rep = core.sanitizer_report(err)
         if rep or rc not in (0, 1):
             ctx.violation("robsd-config - : abnormal termination", dict(argv=args, stdin_hex=content.hex(), rc=rc, report=rep))
